@@ -12,7 +12,7 @@ use crate::rng::Rng;
 use serde_json::json;
 use std::fmt::Write as _;
 
-pub const RULE: &str = "programs: one macro invocation on a string literal per line, for uri!/uri_ref!/iri!/iri_ref!, over grammar-derived valid values, 1-3 edit mutants, non-ASCII text and characters that need escaping in Rust source (quote, backslash, newline, NUL), each literal rendered in a randomly chosen Rust spelling (plain, \\u{..}, \\x.., raw r#\"..\"#, line continuation) with the expected bytes emitted next to it as a numeric array. Valid set: the crate must compile and every constant must equal (bytes, parts, ==) the value parsed at run time. Invalid set: rustc must report an error on exactly the lines of the invalid literals. Non-trivial = every literal; distinct by (macro, literal bytes)";
+pub const RULE: &str = "programs: one macro invocation on a string literal per line, for uri!/uri_ref!/iri!/iri_ref!, over grammar-derived valid values, 1-3 edit mutants, non-ASCII text and characters that need escaping in Rust source (quote, backslash, newline, NUL), each literal rendered in a randomly chosen Rust spelling (plain, \\u{..}, \\x.., raw r#\"..\"#, line continuation) with the expected bytes emitted next to it as a numeric array. Spellings also include upper-case/zero-padded/underscored \\u{..}, upper-case \\xHH, r\"..\", r##\"..\"## and per-character mixtures; the invocation context varies (::iref:: path, forwarding through macro_rules as literal/expr/tt, static in a block, const fn with a lifetime). Valid set: the crate must compile and every constant must equal (bytes, parts, ==) the value parsed at run time. Invalid set: rustc must report an error on exactly the lines of the invalid literals. Non-trivial = every literal; distinct by (macro, literal bytes)";
 
 struct Lit {
     mac: &'static str,
